@@ -11,38 +11,57 @@ oracle on the real code.  The oracle has two independent parts:
       with the Lean model): a stream that begins with a valid header must yield the header's
       addresses and exactly the bytes after it; a stream that does not must pass nothing and — once
       the header region is complete — be closed.
+
+Cases with op 'conns' drive SEVERAL connections through one `HAProxyWrappingFactory` (sequentially or interleaved);
+each connection is judged by (i)+(ii) on its own bytes alone and must equal what it yields as the only connection of a
+fresh factory (mutation audit, harness/mutants/C47: parsers shared between connections, caches keyed too coarsely).
 """
 import ipaddress
 import re
 
 from twisted.internet import address
+from twisted.internet.error import ConnectionDone
 from twisted.internet.protocol import Factory, Protocol
 from twisted.internet.testing import StringTransport
+from twisted.python.failure import Failure
 from twisted.protocols.haproxy._exceptions import InvalidProxyHeader
 from twisted.protocols.haproxy._v1parser import V1Parser
 from twisted.protocols.haproxy._v2parser import V2Parser
 from twisted.protocols.haproxy._wrapper import HAProxyWrappingFactory
 
-HEADLINE = "TwistedProps.C47.proxy_seg_invariant / invalid_header_closes_and_passes_nothing"
+HEADLINE = "TwistedProps.C47.proxy_seg_invariant / invalid_header_closes_and_passes_nothing / interleaving_independent"
 RULE = ("streams = header ++ payload; headers drawn from the v1 grammar (TCP4/TCP6/UNKNOWN, ports and line lengths at "
         "their boundaries) and the v2 grammar (LOCAL/PROXY x every family/protocol nibble, exact/short/TLV-extended "
-        "lengths, UNIX paths), plus mutated/truncated headers and non-PROXY junk; delivered whole, at every split "
-        "point of the header region (+-2 around its end), byte-by-byte and in random multi-splits, occasionally with "
-        "empty chunks; distinct = (reference class of the stream, header kind, #chunks class, first-chunk-length class, "
-        "observed outcome class)")
+        "lengths incl. declared lengths 255..4097 and occasionally 16384/65535, UNIX paths), plus mutated/truncated "
+        "headers, valid v1 lines with ONE token adorned by a byte that int()/strip()/regex-$ tolerate (LF, CR, TAB, VT, "
+        "FF, NUL, NBSP, sign, underscore, ...), streams that END at a decision boundary of the header region (after 1, "
+        "4..6, 11..17 bytes, around the header end and the 107-byte limit) and non-PROXY junk (incl. signature + wrong "
+        "version nibble); delivered whole, at every split point of the header region (+-2 around its end), "
+        "byte-by-byte and in random multi-splits, occasionally with empty chunks; AND histories of 2..3 connections "
+        "through ONE factory (op 'conns'): an earlier connection abandoned in the middle of a header or closed on an "
+        "invalid one (with/without connectionLost) followed by valid ones, the same tokens reused by a later "
+        "connection in another family / adorned / repeated / swapped, header segments of concurrent connections "
+        "interleaved at random; distinct = (reference class of the stream, header kind, #chunks class, "
+        "first-chunk-length class, observed outcome class) resp. (history class, interleaved?, #connections, "
+        "per-connection reference and outcome classes)")
 ASSUMES = [
     "the transport delivers no further data after loseConnection() (tcp.Connection.loseConnection stops reading); "
-    "the harness stops feeding chunks once transport.disconnecting is set",
+    "the harness stops feeding chunks once transport.disconnecting is set, and delivers nothing after connectionLost()",
     "'valid header' is the PROXY protocol v1/v2 grammar: v1 line <= 107 bytes incl. CRLF, exactly the fields of the "
     "family, addresses in inet_pton text form without scope id, ports decimal 0..65535 without sign/leading zeros, "
     "'PROXY UNKNOWN' optionally followed by ' <anything>'; v2 signature, version 2, command LOCAL/PROXY, family "
-    "nibble 0..3, protocol nibble 0..2, declared length >= the family's address block (TLVs beyond it ignored)",
+    "nibble 0..3, protocol nibble 0..2, declared length (any value up to 65535) >= the family's address block (TLVs "
+    "beyond it ignored)",
     "v2 family/protocol bytes with exactly one UNSPEC nibble (0x10, 0x01, ...) are treated as UNSPEC (no addresses), "
     "as Twisted documents and its unit tests pin (test_unspecProto*/test_unspecFamily*), although the protocol text "
     "says receivers should reject them",
     "a v2 UNIX address is the 108-byte field with trailing NULs stripped",
     "an incomplete header (stream ends before CRLF / before 16+length bytes) keeps the connection waiting; closure is "
-    "demanded only once the header region is complete or cannot match either signature",
+    "demanded only once the header region is complete or cannot match either signature (13 bytes with a version "
+    "nibble other than 2 already cannot)",
+    "the property is per connection: every connection of a factory is judged on its own bytes alone, whatever other "
+    "connections of the same factory (or earlier ones of the same process) received and however their deliveries "
+    "interleave with its own",
 ]
 TRUSTED = [
     "Lean transcription of inet_pton(AF_INET/AF_INET6) text validation used by the model's v1 address check "
@@ -54,11 +73,16 @@ MANIFEST = {
             "equals a one-shot classification of the whole stream (induction over the chunk list with the invariant "
             "'state represents the classification of the bytes so far'); every encoded v1/v2 header followed by any "
             "payload is classified as accepted with exactly its addresses and that payload; every accepted stream "
-            "begins with an encoded valid header (so invalid streams pass nothing and are closed once complete). "
-            "Model tied to _wrapper.py/_v1parser.py/_v2parser.py by differential runs.",
-    "note": "trusts Lean kernel, the hand-written model (differentially tied), StringTransport as the transport, "
-            "inet_pton transcription",
-    "technique": "Lean 4 proof (state-represents-prefix invariant, induction over segmentations) + differential tie",
+            "begins with an encoded valid header (so invalid streams pass nothing and are closed once complete); in "
+            "every schedule of dataReceived events over any number of connections of one factory, sequential or "
+            "interleaved, each connection ends as if its own chunks were the only traffic (interleaving_independent, "
+            "proxy_seg_invariant_any_schedule). Model tied to _wrapper.py/_v1parser.py/_v2parser.py by differential "
+            "runs of single connections, direct parser calls and multi-connection schedules through one "
+            "HAProxyWrappingFactory.",
+    "note": "trusts Lean kernel, the hand-written model (differentially tied; its 'no state shared between connections' "
+            "is what the multi-connection cases test), StringTransport as the transport, inet_pton transcription",
+    "technique": "Lean 4 proof (state-represents-prefix invariant, induction over segmentations and over schedules) + "
+                 "differential tie",
     "design_ref": "DESIGN.md §7 C47",
 }
 
@@ -91,14 +115,26 @@ class _App(Protocol):
         self.seen.append((self.transport.getPeer(), self.transport.getHost()))
 
 
-def _deliver(chunks):
-    """One connection; returns the canonical observable line."""
-    factory = HAProxyWrappingFactory(Factory.forProtocol(_App))
+def _connect(factory):
     proto = factory.buildProtocol(address.IPv4Address("TCP", "192.168.1.1", 54321))
     tr = StringTransport(hostAddress=address.IPv4Address("TCP", "10.0.0.1", 12345),
                          peerAddress=address.IPv4Address("TCP", "192.168.1.1", 54321))
     proto.makeConnection(tr)
-    app = proto.wrappedProtocol
+    return proto, tr, proto.wrappedProtocol
+
+
+def _observe(proto, tr, app):
+    peer, host = app.transport.getPeer(), app.transport.getHost()
+    rp, rh = tr.getPeer(), tr.getHost()
+    seen = all(_fmt(p, rp) == _fmt(peer, rp) and _fmt(h, rh) == _fmt(host, rh) for p, h in app.seen)
+    hdr = getattr(proto, "_proxyInfo", None) is not None
+    return (f"closed={int(bool(tr.disconnecting))} hdr={int(hdr)} peer={_fmt(peer, rp)} host={_fmt(host, rh)} "
+            f"app={b''.join(app.chunks).hex() or '-'} seen={int(seen)}")
+
+
+def _deliver(chunks):
+    """One connection; returns the canonical observable line."""
+    proto, tr, app = _connect(HAProxyWrappingFactory(Factory.forProtocol(_App)))
     for ch in chunks:
         if tr.disconnecting:          # see ASSUMES: nothing is delivered after loseConnection
             break
@@ -106,12 +142,40 @@ def _deliver(chunks):
             proto.dataReceived(ch)
         except Exception as e:        # an exception escaping dataReceived is an observable
             return "!raised " + type(e).__name__
-    peer, host = app.transport.getPeer(), app.transport.getHost()
-    rp, rh = tr.getPeer(), tr.getHost()
-    seen = all(_fmt(p, rp) == _fmt(peer, rp) and _fmt(h, rh) == _fmt(host, rh) for p, h in app.seen)
-    hdr = getattr(proto, "_proxyInfo", None) is not None
-    return (f"closed={int(bool(tr.disconnecting))} hdr={int(hdr)} peer={_fmt(peer, rp)} host={_fmt(host, rh)} "
-            f"app={b''.join(app.chunks).hex() or '-'} seen={int(seen)}")
+    return _observe(proto, tr, app)
+
+
+def _deliver_conns(c):
+    """Several connections of ONE factory.  `events` = [[i, hex], ...] in delivery order (connection i is accepted
+    right before its first event, connections without events at the end); connections listed in `lose` get
+    connectionLost() right after their last event (their observable is taken just before).  Returns the
+    per-connection observable lines joined by ' | '."""
+    factory = HAProxyWrappingFactory(Factory.forProtocol(_App))
+    events = [(i, bytes.fromhex(h)) for i, h in c["events"]]
+    last = {i: k for k, (i, _) in enumerate(events)}
+    conns, lines = {}, {}
+    for k, (i, data) in enumerate(events):
+        if i not in conns:
+            conns[i] = _connect(factory)
+        proto, tr, app = conns[i]
+        if i not in lines and not tr.disconnecting:
+            try:
+                proto.dataReceived(data)
+            except Exception as e:
+                lines[i] = "!raised " + type(e).__name__
+        if k == last[i] and i in c.get("lose", []) and i not in lines:
+            lines[i] = _observe(proto, tr, app)
+            proto.connectionLost(Failure(ConnectionDone()))
+    for i in range(c["n"]):
+        if i not in conns:
+            conns[i] = _connect(factory)
+        if i not in lines:
+            lines[i] = _observe(*conns[i])
+    return " | ".join(lines[i] for i in range(c["n"]))
+
+
+def _conn_chunks(c, i):
+    return [bytes.fromhex(h) for j, h in c["events"] if j == i]
 
 
 def _chunks(c):
@@ -130,12 +194,16 @@ def _parse_direct(c):
 
 
 def run_impl(c):
+    if c.get("op", "run") == "conns":
+        return _deliver_conns(c)
     if c.get("op", "run") != "run":
         return _parse_direct(c)
     return _deliver(_chunks(c))
 
 
 def model_line(c):
+    if c.get("op", "run") == "conns":
+        return f"conns {c['n']} " + (";".join(f"{i}:{h or '-'}" for i, h in c["events"]) if c["events"] else "none")
     if c.get("op", "run") != "run":
         return f"{c['op']} {c['line'] or '-'}"
     return "run " + (";".join(h if h else "-" for h in c["chunks"]) if c["chunks"] else "none")
@@ -245,10 +313,8 @@ def _same_addr(shown, exp):
         return False
 
 
-def oracle(c, out):
-    if c.get("op", "run") != "run":
-        return None          # direct parse cases serve the tie only
-    chunks = _chunks(c)
+def _judge(chunks, out):
+    """the property on ONE connection that received `chunks` and ended as `out`"""
     s = b"".join(chunks)
     ref = ref_classify(s)
     kind = "v1" if s[:1] == b"P" else "v2" if s[:1] == b"\r" else "other"
@@ -281,6 +347,35 @@ def oracle(c, out):
         return {"key": f"invalid-header-accepted:{kind}", "detail": f"stream {s!r} does not begin with a valid header ({ref[0]}) but {out}"}
     if ref[0] == "reject" and o["closed"] != "1":
         return {"key": f"invalid-header-not-closed:{kind}", "detail": f"stream {s!r} cannot begin with a valid header but the connection stays open ({out})"}
+    return None
+
+
+def oracle(c, out):
+    op = c.get("op", "run")
+    if op == "run":
+        return _judge(_chunks(c), out)
+    if op != "conns":
+        return None          # direct parse cases serve the tie only
+    # every connection of the factory is judged on its own bytes alone: what other connections of the same factory
+    # (earlier, or interleaved with it) received must not matter
+    outs = out.split(" | ")
+    if len(outs) != c["n"]:
+        return {"key": "raised:" + out[8:], "detail": f"{out} for {c}"}
+    for i, o in enumerate(outs):
+        chunks = _conn_chunks(c, i)
+        try:
+            alone = _deliver(chunks)
+        except Exception as e:  # pragma: no cover
+            alone = "!raised " + type(e).__name__
+        bad = _judge(chunks, alone)
+        if bad is not None:      # fails even as the only connection of a fresh factory: the plain class
+            return bad
+        bad = _judge(chunks, o)
+        if bad is not None:
+            order = [j for j, _ in c["events"]]
+            return {"key": "other-connection-matters:" + bad["key"],
+                    "detail": f"connection {i} of {c['n']} sharing one factory (delivery order {order}, "
+                              f"lost {c.get('lose', [])}): " + bad["detail"]}
     return None
 
 
@@ -320,8 +415,30 @@ BAD_V6 = [b"1.2.3.4", b":::", b"1:2:3:4:5:6:7:8:9", b"12345::", b"g::1", b"", b"
           b"::1.2.3", b"::1.2.3.256"]
 
 
+# bytes that Python's int()/str.strip()/re `$`/`\\s`/`\\d` tolerate around a token but the protocol grammar does not
+ADORN = [b"\n", b"\r", b"\t", b"\x0b", b"\x0c", b" ", b"\x00", b"\x1c", b"\x1d", b"\x1e", b"\x1f", b"\x85", b"\xa0", b"\xc2\xa0",
+         b"_", b"+", b"-", b"0"]
+
+
+def _v1_adorned(rng):
+    """a VALID TCP4/TCP6 line in which one token (or the whole line) carries one extra byte of `ADORN` before or after
+    it — e.g. a port followed by LF, an address preceded by a tab: never a valid header"""
+    fam = rng.choice([4, 6])
+    g = _v4 if fam == 4 else _v6
+    f = [b"PROXY", b"TCP%d" % fam, g(rng), g(rng), _port_ok(rng), _port_ok(rng)]
+    k = rng.choice([0, 1, 2, 3, 4, 4, 5, 5, 5])
+    a = rng.choice(ADORN) if rng.random() < 0.8 else rng.choice([b"\n", b"\r", b"\t", b" "])
+    if k == 0:              # the line as a whole: a byte before CRLF, or (rarely) before PROXY
+        line = b" ".join(f)
+        return (line + a if rng.random() < 0.85 else a + line) + CRLF, "v1-adorn-line"
+    f[k] = f[k] + a if rng.random() < 0.65 else a + f[k]
+    return b" ".join(f) + CRLF, "v1-adorn-%s" % ("proto", "addr", "addr", "port", "port")[k - 1]
+
+
 def _v1_header(rng):
     """→ (header bytes incl. CRLF where applicable, kind)"""
+    if rng.random() < 0.12:
+        return _v1_adorned(rng)
     r = rng.random()
     if r < 0.30:
         fam = rng.choice([4, 6])
@@ -370,6 +487,9 @@ def _v1_header(rng):
     return b"PROXY UNKNOWN " + b"y" * (n - 14), "v1-nocrlf"
 
 
+BIG_V2 = [255, 256, 257, 300, 472, 473, 511, 512, 513, 1000, 1024, 1025, 2048, 4096, 4097]   # declared v2 lengths
+
+
 def _v2_header(rng):
     r = rng.random()
     cmd = rng.choice([0, 1, 1, 1])
@@ -387,8 +507,14 @@ def _v2_header(rng):
         block = path() + path()
     q = rng.random()
     if q < 0.25:     # TLVs / padding after the address block
-        block += bytes(rng.randrange(256) for _ in range(rng.choice([1, 3, 7, 20])))
-        kind += "+tlv"
+        if rng.random() < 0.35:      # declared length at and beyond the one-byte / "reasonable size" boundaries
+            total = rng.choice(BIG_V2 if rng.random() < 0.93 else [16384, 65535])
+            extra = max(1, total - len(block))
+            block += bytes([rng.randrange(256)]) * (extra - 8) + bytes(rng.randrange(256) for _ in range(min(8, extra)))
+            kind += "+bigtlv"
+        else:
+            block += bytes(rng.randrange(256) for _ in range(rng.choice([1, 3, 7, 20])))
+            kind += "+tlv"
     elif q < 0.40 and need:   # declared length too short for the family
         block = block[:rng.choice([0, 1, need - 1, need // 2])]
         kind += "-short"
@@ -428,6 +554,9 @@ def _splits(rng, s, hlen, mode):
     if mode == "all-two":
         return [[s[:p], s[p:]] for p in range(1, len(s))]
     if mode == "bytes":
+        if len(s) > 600:       # a huge TLV area byte by byte costs quadratic time and shows nothing new
+            k = max(rng.randrange(1, 40), len(s) // 60)
+            return [[s[i:i + 1] for i in range(20)] + [s[i:i + k] for i in range(20, len(s), k)]]
         return [[s[i:i + 1] for i in range(len(s))]]
     # random multi-split, sometimes with empty chunks
     out = []
@@ -449,10 +578,132 @@ def _stream(rng):
     else:
         h, kind = rng.choice([(b"GET / HTTP/1.1\r\n", "junk"), (b"", "empty"), (b"P", "junk"), (b"\r", "junk"), (b"\n", "junk"),
                               (b"PROXX", "junk"), (b"proxy unknown\r\n", "junk"), (b"\r\n\r\n\x00\r\nQUIT\r", "junk"),
+                              (SIG + bytes([rng.choice([0x11, 0x31, 0x01, 0x00, 0xA1, 0x12, rng.randrange(256)])]) +
+                               bytes(rng.randrange(256) for _ in range(rng.choice([0, 0, 1, 2]))), "junk-v2ver"),
                               (bytes(rng.randrange(256) for _ in range(rng.randint(1, 30))), "junk")])
-    if rng.random() < 0.08 and len(h) > 1:      # truncated header, no payload
+    t = rng.random()
+    if t < 0.08 and len(h) > 1:      # truncated header, no payload
         return h[:rng.randrange(1, len(h))], len(h), kind + "-trunc"
+    if t < 0.20 and len(h) > 1:      # the stream ENDS at a decision boundary of the header region (the peer sends
+        # no more): what cannot become a valid header any more must be closed NOW, the rest must keep waiting
+        cuts = [p for p in (1, 4, 5, 6, 11, 12, 13, 14, 15, 16, 17, len(h) - 2, len(h) - 1, 106, 107, 108, 109) if 0 < p < len(h)]
+        return h[:rng.choice(cuts)], len(h), kind + "-cut"
     return h + _payload(rng), len(h), kind
+
+
+# ---- several connections through one factory
+
+def _conns_case(streams, order, lose, kind):
+    """streams: list of chunk lists; order: connection index per event (the k-th mention of i delivers its k-th chunk)"""
+    pos = [0] * len(streams)
+    events = []
+    for i in order:
+        events.append([i, streams[i][pos[i]].hex()])
+        pos[i] += 1
+    assert pos == [len(x) for x in streams]
+    return {"op": "conns", "n": len(streams), "events": events, "lose": sorted(lose), "kind": kind}
+
+
+def _sequential(streams):
+    return [i for i, chunks in enumerate(streams) for _ in chunks]
+
+
+def _interleave(rng, streams):
+    left = [len(x) for x in streams]
+    order = []
+    while any(left):
+        i = rng.choice([j for j, n in enumerate(left) if n])
+        order.append(i)
+        left[i] -= 1
+    return order
+
+
+def _few_chunks(rng, s, hlen):
+    """1..4 chunks, cut points preferably inside the header region"""
+    n = rng.choice([1, 2, 2, 3, 4])
+    hi = max(1, min(len(s), hlen + 2))
+    cuts = sorted({rng.randrange(1, hi + 1) for _ in range(n - 1)} - {len(s)}) if len(s) > 1 else []
+    return [s[a:b] for a, b in zip([0] + cuts, cuts + [len(s)])]
+
+
+def _valid_header(rng):
+    r = rng.random()
+    if r < 0.35:
+        fam = rng.choice([4, 6])
+        g = _v4 if fam == 4 else _v6
+        return b"PROXY TCP%d %s %s %s %s\r\n" % (fam, g(rng), g(rng), _port_ok(rng), _port_ok(rng)), f"v1-tcp{fam}"
+    if r < 0.45:
+        return b"PROXY UNKNOWN" + rng.choice([b"", b" x y"]) + CRLF, "v1-unknown"
+    fp = rng.choice([0x11, 0x12, 0x21, 0x22, 0x31, 0x00])
+    need = {1: 12, 2: 36, 3: 216}.get(fp >> 4, 0)
+    block = bytes(rng.choice([0, 1, 127, 255, rng.randrange(256)]) for _ in range(need)) + bytes(rng.randrange(256) for _ in range(rng.choice([0, 0, 5])))
+    return SIG + bytes([0x20 | rng.choice([0, 1, 1, 1]), fp]) + len(block).to_bytes(2, "big") + block, "v2-%02x" % fp
+
+
+def _conns(rng):
+    """one multi-connection case; the classes are histories that a per-connection check can never produce"""
+    r = rng.random()
+    if r < 0.30:
+        # leftover state: an earlier connection stops in the middle of a header (or is closed on an invalid one) and
+        # goes away; a later connection of the same factory sends a valid header
+        h0, k0 = _valid_header(rng) if rng.random() < 0.7 else (_stream(rng)[0], "any")
+        first = h0[:rng.randrange(1, len(h0) + 1)] if len(h0) > 1 and rng.random() < 0.8 else h0
+        h1, k1 = _valid_header(rng)
+        if rng.random() < 0.5:      # same version as the first, most of the time the very same header
+            h1, k1 = (h0, k0) if ref_classify(h0)[0] == "accept" and rng.random() < 0.6 else (h1, k1)
+        streams = [_few_chunks(rng, first, len(first)), _few_chunks(rng, h1 + _payload(rng), len(h1))]
+        if rng.random() < 0.3:
+            h2, _ = _valid_header(rng)
+            streams.append(_few_chunks(rng, h2 + _payload(rng), len(h2)))
+        lose = {0} if rng.random() < 0.6 else set()
+        return _conns_case(streams, _sequential(streams), lose, f"seq-leftover:{k0}>{k1}")
+    if r < 0.55:
+        # related headers: the same tokens reappear in a later connection in a context where they are NOT valid
+        # (address of the other family, adorned port), or the same valid header is simply repeated
+        fam = rng.choice([4, 6])
+        g = _v4 if fam == 4 else _v6
+        a, b, sp, dp = g(rng), g(rng), _port_ok(rng), _port_ok(rng)
+        good = b"PROXY TCP%d %s %s %s %s\r\n" % (fam, a, b, sp, dp)
+        q = rng.random()
+        if q < 0.45:
+            other = b"PROXY TCP%d %s %s %s %s\r\n" % (10 - fam, a, b, sp, dp)
+            kind = "seq-crossfam"
+        elif q < 0.7:
+            other = b"PROXY TCP%d %s %s %s %s\r\n" % (fam, a, b, sp + rng.choice(ADORN), dp)
+            kind = "seq-adorned"
+        elif q < 0.85:
+            other, kind = good, "seq-repeat"
+        else:
+            other = b"PROXY TCP%d %s %s %s %s\r\n" % (fam, b, a, dp, sp)
+            kind = "seq-swapped"
+        pair = [good, other] if rng.random() < 0.8 else [other, good]
+        streams = [_few_chunks(rng, h + _payload(rng), len(h)) for h in pair]
+        lose = {i for i in range(2) if rng.random() < 0.5}
+        return _conns_case(streams, _sequential(streams), lose, kind)
+    if r < 0.90:
+        # concurrent connections: header segments of 2..3 connections interleaved
+        streams = []
+        for _ in range(rng.choice([2, 2, 3])):
+            if rng.random() < 0.75:
+                h, _k = _valid_header(rng)
+                s, hlen = h + _payload(rng), len(h)
+            else:
+                s, hlen, _k = _stream(rng)
+                if len(s) > 700:
+                    s, hlen = s[:700], min(hlen, 700)
+            ch = _few_chunks(rng, s, hlen)
+            if len(ch) == 1 and len(s) > 1 and rng.random() < 0.8:     # make sure something can interleave
+                p = rng.randrange(1, max(2, min(len(s), hlen + 1)))
+                ch = [s[:p], s[p:]]
+            streams.append(ch)
+        return _conns_case(streams, _interleave(rng, streams), {i for i in range(len(streams)) if rng.random() < 0.2}, "interleaved")
+    streams = []
+    for _ in range(rng.choice([2, 3])):
+        s, hlen, _k = _stream(rng)
+        if len(s) > 700:
+            s, hlen = s[:700], min(hlen, 700)
+        streams.append(_few_chunks(rng, s, hlen))
+    return _conns_case(streams, _sequential(streams), {i for i in range(len(streams)) if rng.random() < 0.4}, "seq-any")
 
 
 def corpus():
@@ -477,6 +728,27 @@ def corpus():
         _case([], "empty"),
         _case([b""], "empty"),
         _case([b"", v1 + b"x"], "v1-tcp4"),
+        # --- classes added by the mutation audit (harness/mutants/C47)
+        # a token followed by LF (what a regex `$` or int() would let through)
+        _case([b"PROXY TCP4 1.1.1.1 2.2.2.2 1 80\n\r\nDATA"], "v1-adorn-port"),
+        _case([b"PROXY TCP4 1.1.1.1 2.2.2.2 1\n 80\r\nDATA"], "v1-adorn-port"),
+        _case([b"PROXY TCP4 1.1.1.1\n 2.2.2.2 1 80\r\nDATA"], "v1-adorn-addr"),
+        # v2 headers with a declared length beyond 255 / 472 / 4096 (TLVs)
+        _case([SIG + b"\x21\x11\x01\x2c" + b"\x01" * 300 + b"DATA"], "v2-proxy-11+bigtlv"),
+        _case([SIG + b"\x21\x21\x02\x00" + b"\x02" * 512, b"DATA"], "v2-proxy-21+bigtlv"),
+        _case([SIG + b"\x21\x11\x10\x01" + b"\x03" * 4097 + b"D"], "v2-proxy-11+bigtlv"),
+        # a stream that ends where it can no longer become a header: closed at once
+        _case([SIG + b"\x11"], "junk-v2ver"),
+        _case([SIG + b"\x31\x11\x00"], "junk-v2ver"),
+        _case([SIG + b"\x21\x11\x00"], "v2-proxy-11-cut"),
+        # several connections of one factory: leftover of an unfinished header, tokens reused across families,
+        # interleaved header segments
+        _conns_case([[v1[:20]], [v1 + b"GET /"]], [0, 1], {0}, "seq-leftover"),
+        _conns_case([[v2[:20]], [v2 + b"hello"]], [0, 1], set(), "seq-leftover"),
+        _conns_case([[b"PROXY TCP6 ::1 ::2 1 2\r\nA"], [b"PROXY TCP4 ::1 ::2 1 2\r\nB"]], [0, 1], {0}, "seq-crossfam"),
+        _conns_case([[v1[:22], v1[22:] + b"AAA"], [b"PROXY TCP4 3.3.3.3 4.4.", b"4.4 7 8\r\nBBB"]], [0, 1, 0, 1], set(), "interleaved"),
+        _conns_case([[v2[:20], v2[20:] + b"AAA"], [v2[:18], v2[18:] + b"BBB"]], [0, 1, 1, 0], set(), "interleaved"),
+        _conns_case([[], [v1]], [1], set(), "seq-any"),
     ]
     return cs
 
@@ -524,11 +796,19 @@ def generate(rng, tier):
         for m in modes:
             for chunks in _splits(rng, s, hlen, m):
                 yield _case(chunks, kind)
+        for _ in range(3):
+            yield _conns(rng)
 
 
 def search(rng, tier, disagreeing):
     """every two-way split and the byte-by-byte delivery of each disagreeing stream + fresh thorough cases"""
     for c in disagreeing[:50]:
+        if c.get("op", "run") == "conns":    # every connection alone, then the same connections one after the other
+            for i in range(c["n"]):
+                yield _case(_conn_chunks(c, i), c.get("kind", "?"))
+            streams = [_conn_chunks(c, i) for i in range(c["n"])]
+            yield _conns_case(streams, _sequential(streams), set(c.get("lose", [])), c.get("kind", "?"))
+            continue
         if c.get("op", "run") != "run":      # a direct-parse disagreement: drive the same line through the wrapper
             s = bytes.fromhex(c["line"]) + (CRLF + b"DATA" if c["op"] == "v1parse" else b"DATA")
         else:
@@ -540,9 +820,37 @@ def search(rng, tier, disagreeing):
         s, hlen, kind = _stream(rng)
         for chunks in _splits(rng, s, hlen, "all-two" if len(s) < 140 else "two"):
             yield _case(chunks, kind)
+        yield _conns(rng)
+
+
+def _shrink_conns(c):
+    kind, lose = c.get("kind", "?"), set(c.get("lose", []))
+    ev = c["events"]
+    n = c["n"]
+    for i in range(n):                       # drop a whole connection
+        if n > 1:
+            ren = lambda j: j - (j > i)
+            yield {"op": "conns", "n": n - 1, "events": [[ren(j), h] for j, h in ev if j != i],
+                   "lose": sorted(ren(j) for j in lose if j != i), "kind": kind}
+    if lose:
+        yield dict(c, lose=[])
+    for k in range(len(ev)):                 # drop one event; merge an event into the connection's next one
+        yield dict(c, events=ev[:k] + ev[k + 1:])
+        for m in range(k + 1, len(ev)):
+            if ev[m][0] == ev[k][0]:
+                yield dict(c, events=ev[:k] + ev[k + 1:m] + [[ev[k][0], ev[k][1] + ev[m][1]]] + ev[m + 1:])
+                break
+    for k, (i, h) in enumerate(ev):          # shorten a chunk from its end
+        b = bytes.fromhex(h)
+        for cut in (len(b) // 2, 1):
+            if 0 < cut < len(b):
+                yield dict(c, events=ev[:k] + [[i, b[:-cut].hex()]] + ev[k + 1:])
 
 
 def shrink(c):
+    if c.get("op", "run") == "conns":
+        yield from _shrink_conns(c)
+        return
     if c.get("op", "run") != "run":
         line = bytes.fromhex(c["line"])
         for j in range(len(line)):
@@ -576,7 +884,19 @@ def _lenclass(n):
     return "big"
 
 
+def _outclass(o):
+    o = _parse_out(o)
+    return "raise" if o is None else ("closed" if o["closed"] == "1" else ("hdr" if o["hdr"] == "1" else "wait")) + \
+        ("" if o is None or o["peer"] == "real" else ":" + o["peer"].split(":")[0])
+
+
 def tag(c, out):
+    if c.get("op", "run") == "conns":
+        order = [i for i, _ in c["events"]]
+        inter = "interleaved" if any(order[k] > order[k + 1] for k in range(len(order) - 1)) else "sequential"
+        refs = ",".join(ref_classify(b"".join(_conn_chunks(c, i)))[0][:3] for i in range(c["n"]))
+        return f"conns:{c.get('kind', '?').split(':')[0]}:{inter}:n{c['n']}:lose{len(c.get('lose', []))}:{refs}:" + \
+            ",".join(_outclass(o) for o in out.split(" | "))
     if c.get("op", "run") != "run":
         return f"{c['op']}:{c.get('kind', '?')}:{out.split(':')[0] if out.startswith('ok') else out}"
     chunks = _chunks(c)
